@@ -784,6 +784,8 @@ def work_fixed(job):
             w = wx if c["decl"] == "xml" else wh
             dist["window:%s:%s" % (c["decl"], "inside" if c["decl_end"] <= w else "outside") + (":long" if c.get("light") else "")] += 1
         dist[f"stream:{name}"] += 1
+        if c.get("stream") == "both":
+            dist["both:%s:%s:html%d" % (c["decl"].split(":")[1], c["declclass"], c["is_html"])] += 1
         dist["how:" + o["how"]] += 1
         nontriv.append(hashlib.sha256(json.dumps(c, sort_keys=True).encode()).hexdigest()[:12])
         for x in v:
@@ -950,6 +952,52 @@ def window_direct(c):
                                       f"according to the documented search window (declaration ends at character {c['decl_end']}; XML window {wx}, <meta> window {wh})",
                                  expected=want, observed=got, stream="window/declared"))
     return viol
+
+
+def both_cases(seed, thorough):
+    """Documents carrying BOTH an XML declaration and a <meta> charset. Documented rule: the XML declaration (at the very start, within
+    1024 bytes) wins when present; the <meta> is consulted only if no XML declaration was found, and only for HTML. The generator knows
+    what it wrote, so the expected declaration is independent of the code and of the model."""
+    rng = rng_for(seed, "C07", "both")
+    out = []
+    n = 1200 if thorough else 260
+    for i in range(n):
+        codec, text = rng.choice(WINDOW_TEXTS)
+        other = rng.choice([c for c, _ in WINDOW_TEXTS if c != codec] + ["utf-8", "iso-8859-1", "ascii"])
+        agree = rng.random() < 0.25
+        xname = spell(rng, codec if rng.random() < 0.7 else other)
+        mname = xname if agree else spell(rng, other if xname.lower().replace("_", "-") in [x.lower() for x in SPELLINGS.get(codec, [codec])] else codec)
+        xml = rng.choice(XML_TPL) % xname
+        meta = rng.choice(META_TPL) % mname
+        is_html = rng.random() < 0.75
+        order = rng.choice(["xml-first", "xml-first", "xml-first", "meta-first", "xml-late"])
+        body = "<body><p>" + text + "</p></body></html>"
+        if order == "xml-first":
+            lead = rng.choice(["", "", " ", "\n", "\r\n  "])
+            doc = lead + xml + rng.choice(["\n", "", "\n<!DOCTYPE html>\n"]) + "<html><head>" + rng.choice(["", "<title>t</title>"]) + meta + "</head>" + body
+            truth = xname.lower()
+        elif order == "meta-first":
+            # an XML declaration that is not at the start of the document is not one
+            doc = "<html><head>" + meta + "</head>" + xml + body
+            truth = mname.lower() if is_html else None
+        else:
+            # the XML declaration ends beyond the first 1024 bytes: not found; the <meta> (inside 2048) is consulted for HTML
+            pad = " " * rng.randint(1024, 1300)
+            doc = pad + xml + "\n<html><head>" + meta + "</head>" + body
+            truth = mname.lower() if is_html else None
+        markup = doc.encode(codec, "ignore")
+        r = rng.random()
+        known, user, exclude = [], [], []
+        if r < 0.12:
+            known = [rng.choice(["ascii", "utf-8"])]
+        elif r < 0.2:
+            exclude = [rng.choice(["utf-8", "windows-1252", xname.upper(), mname])]
+        elif r < 0.26:
+            user = ["ascii"]
+        out.append(dict(stream="both", markup_hex=markup.hex(), is_html=is_html, known=known, user=user, exclude=exclude, override=[],
+                        soup=is_html and not user, builder=is_html and len(user) <= 1, codec=codec, decl="both:" + order, declname=xname,
+                        declclass="agree" if agree else "disagree", bom="none", text="both", truth_declared=truth, xml_name=xname, meta_name=mname))
+    return out
 
 
 def declared_stream(seed, n):
@@ -1294,6 +1342,9 @@ def run(ctx: Ctx):
             n -= chunk
             k += 1
     fixed = [("edge", edge_cases()), ("alias", alias_cases())]
+    bc = both_cases(ctx.seed, ctx.thorough)
+    for i in range(0, len(bc), 65):
+        fixed.append(("both", bc[i:i + 65]))
     wc = window_cases(ctx.seed, ctx.thorough)
     for i in range(0, len(wc), 40):
         fixed.append(("window", wc[i:i + 40]))
